@@ -68,6 +68,9 @@ def case_single(kind, fam, uniform=False):
                     fem.IntegralForm([vec], v=field, dV=reg.dV, grad_v=[False]).assemble(parallel=parallel)
                     fem.IntegralForm([rnd(rng, D, D, *bc)], v=field, dV=reg.dV, grad_v=[True]).assemble(parallel=parallel)
                     fem.IntegralForm([rnd(rng, D, D, *bc)], v=field, dV=reg.dV).assemble(parallel=parallel)
+                    # the two-step path the solid bodies use: integrate(), then assemble(values=...)
+                    form2 = fem.IntegralForm([rnd(rng, D, D, D, D, *bc)], v=field, dV=reg.dV, u=field)
+                    form2.assemble(values=form2.integrate(parallel=parallel))
                     # bilinear forms, all grad combinations the field kind supports
                     fem.IntegralForm([rnd(rng, D, D, D, D, *bc)], v=field, dV=reg.dV, u=field).assemble(parallel=parallel)
                     if kind != "axisymmetric":
@@ -273,7 +276,7 @@ def cases(tier, seed):
 SPEC = {
     "required_units": ["kind:cartesian", "kind:scalar", "kind:planestrain", "kind:axisymmetric", "kind:cartesian uniform",
                        "kind:planestrain uniform", "mixed:cartesian:n=3", "mixed:cartesian:n=2", "mixed:planestrain:n=3",
-                       "mixed:planestrain:n=2", "mixed:axisymmetric:n=3", "mixed:axisymmetric:n=2", "block-mode=1", "block-mode=2", "block-mode=3", "none-block", "parallel-einsum", "dual-points-per-cell=1",
+                       "mixed:planestrain:n=2", "mixed:axisymmetric:n=3", "mixed:axisymmetric:n=2", "assemble(values=integrate())", "block-mode=1", "block-mode=2", "block-mode=3", "none-block", "parallel-einsum", "dual-points-per-cell=1",
                        "dual-points-per-cell=4", "dual-points-per-cell=3", "distinct-thread-completion-orders>=2",
                        "form:linear:parallel=True", "form:linear:parallel=False", "form:parallel-basis"]
     + ["form:%s:parallel=%s:sym=%s" % (k, p, s) for k in ("bilinear", "mixed") for p in (True, False) for s in (True, False)],
